@@ -13,6 +13,7 @@ import (
 	"fmt"
 	"hash/fnv"
 	"io"
+	"math/rand"
 	"os"
 	"path/filepath"
 	"regexp"
@@ -222,6 +223,9 @@ func (in input) panicClass() string {
 		case "missing-address", "non-string-address", "non-map-item", "empty", "yaml-special":
 			return in.Class
 		}
+	}
+	if in.Pos == posListener && in.Fwd != "" && in.Class != "documented" && !strings.HasPrefix(in.Class, "forward-") {
+		return in.Class + "+forward" // a listen part that is no good, followed by a forward part (c18_forward_test.go)
 	}
 	return "string-address"
 }
@@ -458,6 +462,59 @@ func deterministicInputs() []input {
 	return res
 }
 
+// mutatePrefix damages the scheme/separator part of an address: one or two PRNG-chosen edits.
+func mutatePrefix(rng *rand.Rand, pre []byte) []byte {
+	ops := 1 + rng.Intn(2)
+	for o := 0; o < ops; o++ {
+		switch rng.Intn(9) {
+		case 0: // flip case
+			i := rng.Intn(len(pre))
+			if pre[i] >= 'a' && pre[i] <= 'z' {
+				pre[i] -= 32
+			} else if pre[i] >= 'A' && pre[i] <= 'Z' {
+				pre[i] += 32
+			}
+		case 1: // drop a byte
+			if len(pre) > 1 {
+				i := rng.Intn(len(pre))
+				pre = append(pre[:i:i], pre[i+1:]...)
+			}
+		case 2: // duplicate a byte
+			i := rng.Intn(len(pre))
+			pre = append(pre[:i+1:i+1], pre[i:]...)
+		case 3: // insert a suffix before the separator
+			suf := []string{"+tls", "+ssl", "+TLS", "s", "+tcp", "+udp", "4", "6", "+"}[rng.Intn(9)]
+			if i := bytes.Index(pre, []byte(":")); i >= 0 {
+				pre = append(pre[:i:i], append([]byte(suf), pre[i:]...)...)
+			} else {
+				pre = append(pre, suf...)
+			}
+		case 4: // change the separator
+			sep := []string{":", ":/", "//", ";//", ":", "::", " ://", ":\\\\"}[rng.Intn(8)]
+			if i := bytes.Index(pre, []byte("://")); i >= 0 {
+				pre = append(pre[:i:i], sep...)
+			}
+		case 5: // '+' -> other joiner
+			j := []byte{'-', '_', ' ', '.', '&'}[rng.Intn(5)]
+			if i := bytes.IndexByte(pre, '+'); i >= 0 {
+				pre[i] = j
+			}
+		case 6: // tls -> near words
+			w := []string{"ssl", "tsl", "tl", "tlss", "TLS", "starttls"}[rng.Intn(6)]
+			pre = bytes.Replace(pre, []byte("tls"), []byte(w), 1)
+		case 7: // swap two neighbours
+			if len(pre) > 2 {
+				i := rng.Intn(len(pre) - 1)
+				pre[i], pre[i+1] = pre[i+1], pre[i]
+			}
+		case 8: // replace a byte with a random printable one
+			i := rng.Intn(len(pre))
+			pre[i] = byte(0x21 + rng.Intn(0x5e))
+		}
+	}
+	return pre
+}
+
 // mutants: PRNG-determined damage to the scheme/separator part of a good address (the host part,
 // which holds the harness' placeholders, is never touched).
 func mutantInputs(seed int64, n int) []input {
@@ -478,55 +535,7 @@ func mutantInputs(seed int64, n int) []input {
 		if r.Kind == "dns" && pos == posUpstream {
 			host = "example.org?dns=127.0.0.1:{P}&direct=false"
 		}
-		pre := []byte(r.Scheme + "://")
-		ops := 1 + rng.Intn(2)
-		for o := 0; o < ops; o++ {
-			switch rng.Intn(9) {
-			case 0: // flip case
-				i := rng.Intn(len(pre))
-				if pre[i] >= 'a' && pre[i] <= 'z' {
-					pre[i] -= 32
-				} else if pre[i] >= 'A' && pre[i] <= 'Z' {
-					pre[i] += 32
-				}
-			case 1: // drop a byte
-				if len(pre) > 1 {
-					i := rng.Intn(len(pre))
-					pre = append(pre[:i:i], pre[i+1:]...)
-				}
-			case 2: // duplicate a byte
-				i := rng.Intn(len(pre))
-				pre = append(pre[:i+1:i+1], pre[i:]...)
-			case 3: // insert a suffix before the separator
-				suf := []string{"+tls", "+ssl", "+TLS", "s", "+tcp", "+udp", "4", "6", "+"}[rng.Intn(9)]
-				if i := bytes.Index(pre, []byte(":")); i >= 0 {
-					pre = append(pre[:i:i], append([]byte(suf), pre[i:]...)...)
-				} else {
-					pre = append(pre, suf...)
-				}
-			case 4: // change the separator
-				sep := []string{":", ":/", "//", ";//", ":", "::", " ://", ":\\\\"}[rng.Intn(8)]
-				if i := bytes.Index(pre, []byte("://")); i >= 0 {
-					pre = append(pre[:i:i], sep...)
-				}
-			case 5: // '+' -> other joiner
-				j := []byte{'-', '_', ' ', '.', '&'}[rng.Intn(5)]
-				if i := bytes.IndexByte(pre, '+'); i >= 0 {
-					pre[i] = j
-				}
-			case 6: // tls -> near words
-				w := []string{"ssl", "tsl", "tl", "tlss", "TLS", "starttls"}[rng.Intn(6)]
-				pre = bytes.Replace(pre, []byte("tls"), []byte(w), 1)
-			case 7: // swap two neighbours
-				if len(pre) > 2 {
-					i := rng.Intn(len(pre) - 1)
-					pre[i], pre[i+1] = pre[i+1], pre[i]
-				}
-			case 8: // replace a byte with a random printable one
-				i := rng.Intn(len(pre))
-				pre[i] = byte(0x21 + rng.Intn(0x5e))
-			}
-		}
+		pre := mutatePrefix(rng, []byte(r.Scheme+"://"))
 		a := string(pre) + host
 		if a == r.Scheme+"://"+host {
 			continue
@@ -644,7 +653,32 @@ func TestVerifC18(t *testing.T) {
 			push("start", in)
 		}
 	}
+	// the two-address position: every listen part of the lists above once more with a forward part behind it,
+	// and every forward part behind good listen parts (c18_forward_test.go)
+	fwdDet := forwardInputs(det)
+	fwdMut := forwardMutants(rec.Seed(), rec.Pick(120, 3000))
+	for _, in := range fwdDet {
+		push("parse", in)
+	}
+	for _, in := range fwdMut {
+		push("parse", in)
+	}
+	for _, in := range fwdDet {
+		if forwardStartable(in) {
+			push("start", in)
+		}
+	}
+	for i, in := range fwdMut {
+		if i < rec.Pick(60, 1000) && forwardStartable(in) {
+			push("start", in)
+		}
+	}
 	if e.bin != "" {
+		for _, in := range fwdDet {
+			if forwardBBWorthwhile(in) {
+				push("bb", in)
+			}
+		}
 		for _, in := range det {
 			if bbWorthwhile(in) {
 				push("bb", in)
